@@ -3,10 +3,10 @@
 (* module in the scratch directory of each TLC run with the worlds of that run.                    *)
 ProgsDef == <<
  [passctx |-> TRUE, tmpls |-> <<
-   [uri |-> <<"a", "-", "b", ".", "html">>, targs |-> <<<<"type", "s:memory">>>>, bf |-> FALSE, en0 |-> TRUE, inh |-> 0, isbase |-> FALSE,
-    page |-> [cached |-> FALSE, key |-> "static", pfx |-> "", args |-> <<<<"timeout", "s:7">>>>, sig |-> <<>>, kp |-> 0,
+   [uri |-> <<"a", "-", "b", ".", "html">>, targs |-> <<<<"type", "s:memory">>>>, bf |-> FALSE, en0 |-> TRUE, strict |-> FALSE, inh |-> 0, isbase |-> FALSE,
+    page |-> [cached |-> FALSE, key |-> "static", pfx |-> "", args |-> <<<<"timeout", "s:7">>>>, sig |-> <<>>, kp |-> 0, reads |-> FALSE,
               items |-> <<[sec |-> 1, pos |-> <<"A">>, kw |-> <<>>, tm |-> 0, how |-> "call"]>>],
     secs |-> <<[name |-> "foo", kind |-> "def", cached |-> TRUE, key |-> "static", pfx |-> "",
                 args |-> <<<<"timeout", "s:34">>>>, buf |-> FALSE, filt |-> FALSE,
-                sig |-> <<[n |-> "x", k |-> "pos", d |-> ""]>>, kp |-> 0, items |-> <<>>]>>] >>] >>
+                sig |-> <<[n |-> "x", k |-> "pos", d |-> ""]>>, kp |-> 0, reads |-> FALSE, items |-> <<>>]>>] >>] >>
 =============================================================================
